@@ -1,2 +1,241 @@
--- stub driver for C02: replaced when the property's model exists
-def main : IO Unit := pure ()
+import Snel.Model.Proto
+import Snel.Model.Query
+open Snel Snel.Proto Snel.Query
+
+/-!
+Line protocol of the C02 streams.
+
+`q` line (stream `e2e`):
+```
+q <nf> <kind>*  <for: - | hex>  M <n> <row>*  S <nsegs> (G <nzones> (Z <id> <n> <row>*)*)*
+  C <hascat> <mask>*nf  E <expr>  L <nleaves> (<f> <op> <lit> (<t> <e> <s> <z> <x>)*nsegs)*
+```
+kind: `i u f s b t` or `e<v1>,<v2>,…`; row: `<ctxhex> <val>*nf`; val: `n | i<int> | d<m>:<e>:<hex> |
+s<hex> | b0 | b1`; lit: `i<int> | d<m>:<e>:<hex> | s<hex>`; op: `eq ne gt ge lt le`;
+expr: `c <f> <op> <lit> | I <f> <n> <lit>* | A e e | O e e | N e`;
+pruner outcome: `-` (None) or `z<id>,<id>…` (`z` = empty list);
+mask bits: 1 ebm, 2 xf, 4 zxf, 8 surf.
+
+`m` line (stream `lit`): `m <nf> <kind>* R <row> E <expr>` → `true | false | panic`
+(`ConditionEvaluator::evaluate_event` on one memtable event).
+-/
+
+abbrev P (α : Type) := List String → Option (α × List String)
+
+def strOfHex (h : String) : Option Str := do
+  let bs ← unhex h
+  let s ← String.fromUTF8? (ByteArray.mk bs.toArray)
+  pure s.toList
+
+def pNat : P Nat
+  | t :: r => t.toNat?.map (·, r)
+  | [] => none
+
+def pTok (s : String) : P Unit
+  | t :: r => if t = s then some ((), r) else none
+  | [] => none
+
+def pMany {α} (p : P α) : Nat → P (List α)
+  | 0, ts => some ([], ts)
+  | n + 1, ts => do
+    let (x, ts) ← p ts
+    let (xs, ts) ← pMany p n ts
+    pure (x :: xs, ts)
+
+def pKind : P Kind
+  | t :: r =>
+    match t with
+    | "i" => some (.int, r)
+    | "u" => some (.u64, r)
+    | "f" => some (.float, r)
+    | "s" => some (.str, r)
+    | "b" => some (.bool, r)
+    | "t" => some (.time, r)
+    | _ =>
+      if t.startsWith "e" then
+        some (.enum (((t.drop 1).toString.splitOn ",").map String.toList), r)
+      else none
+  | [] => none
+
+def pDy (body : String) : Option (Dy × Str) :=
+  match body.splitOn ":" with
+  | [m, e, h] => do
+    let m ← m.toInt?
+    let e ← e.toNat?
+    let d ← strOfHex h
+    pure (⟨m, e⟩, d)
+  | _ => none
+
+def pVal : P Val
+  | t :: r =>
+    if t = "n" then some (.null, r)
+    else if t = "b0" then some (.bool false, r)
+    else if t = "b1" then some (.bool true, r)
+    else
+      let body := (t.drop 1).toString
+      match t.front with
+      | 'i' => body.toInt?.map fun i => (.int i, r)
+      | 'd' => (pDy body).map fun (d, s) => (.flt d s, r)
+      | 's' => (strOfHex body).map fun s => (.str s, r)
+      | _ => none
+  | [] => none
+
+def pLit : P Lit
+  | t :: r =>
+    let body := (t.drop 1).toString
+    match t.front with
+    | 'i' => body.toInt?.map fun i => (.int i, r)
+    | 'd' => (pDy body).map fun (d, s) => (.flt d s, r)
+    | 's' => (strOfHex body).map fun s => (.str s, r)
+    | _ => none
+  | [] => none
+
+def pOp : P Op
+  | t :: r =>
+    match t with
+    | "eq" => some (.eq, r) | "ne" => some (.neq, r) | "gt" => some (.gt, r)
+    | "ge" => some (.gte, r) | "lt" => some (.lt, r) | "le" => some (.lte, r)
+    | _ => none
+  | [] => none
+
+def pRow (nf : Nat) : P Row := fun ts => do
+  match ts with
+  | c :: ts =>
+    let ctx ← strOfHex c
+    let (vs, ts) ← pMany pVal nf ts
+    pure (⟨ctx, vs⟩, ts)
+  | [] => none
+
+def pExpr : Nat → P Expr
+  | 0, _ => none
+  | fuel + 1, ts =>
+    match ts with
+    | "c" :: ts => do
+      let (f, ts) ← pNat ts
+      let (op, ts) ← pOp ts
+      let (l, ts) ← pLit ts
+      pure (.cmp f op l, ts)
+    | "I" :: ts => do
+      let (f, ts) ← pNat ts
+      let (n, ts) ← pNat ts
+      let (ls, ts) ← pMany pLit n ts
+      pure (.inn f ls, ts)
+    | "A" :: ts => do
+      let (a, ts) ← pExpr fuel ts
+      let (b, ts) ← pExpr fuel ts
+      pure (.and a b, ts)
+    | "O" :: ts => do
+      let (a, ts) ← pExpr fuel ts
+      let (b, ts) ← pExpr fuel ts
+      pure (.or a b, ts)
+    | "N" :: ts => do
+      let (a, ts) ← pExpr fuel ts
+      pure (.not a, ts)
+    | _ => none
+
+def pZone (nf : Nat) : P Zone := fun ts => do
+  let (_, ts) ← pTok "Z" ts
+  let (id, ts) ← pNat ts
+  let (n, ts) ← pNat ts
+  let (rows, ts) ← pMany (pRow nf) n ts
+  pure (⟨id, rows⟩, ts)
+
+def pSeg (nf : Nat) : P Seg := fun ts => do
+  let (_, ts) ← pTok "G" ts
+  let (n, ts) ← pNat ts
+  let (zs, ts) ← pMany (pZone nf) n ts
+  pure (⟨zs⟩, ts)
+
+def pOutcome : P (Option (List Nat))
+  | t :: r =>
+    if t = "-" then some (none, r)
+    else if t = "z" then some (some [], r)
+    else if t.startsWith "z" then
+      (((t.drop 1).toString.splitOn ",").mapM String.toNat?).map fun ids => (some ids, r)
+    else none
+  | [] => none
+
+structure LeafEntry where
+  f : Nat
+  op : Op
+  lit : Lit
+  perSeg : List (List (Option (List Nat)))
+
+def pLeaf (nsegs : Nat) : P LeafEntry := fun ts => do
+  let (f, ts) ← pNat ts
+  let (op, ts) ← pOp ts
+  let (l, ts) ← pLit ts
+  let (ps, ts) ← pMany (pMany pOutcome 5) nsegs ts
+  pure (⟨f, op, l, ps⟩, ts)
+
+def rawOf (leaves : List LeafEntry) (j f : Nat) (op : Op) (l : Lit) : RawSeg := fun p =>
+  match leaves.find? fun e => e.f = f && e.op = op && e.lit = l with
+  | none => none
+  | some e =>
+    match e.perSeg[j]? with
+    | none => none
+    | some os =>
+      let i := match p with | .temporal => 0 | .ebm => 1 | .surf => 2 | .zxf => 3 | .xf => 4
+      (os[i]?).getD none
+
+def catOf (masks : List Nat) (f : Nat) : Cat :=
+  let m := masks.getD f 0
+  ⟨m % 2 = 1, (m / 2) % 2 = 1, (m / 4) % 2 = 1, (m / 8) % 2 = 1⟩
+
+def parseQ (ts : List String) : Option (World × Expr) := do
+  let (nf, ts) ← pNat ts
+  let (sch, ts) ← pMany pKind nf ts
+  let (forCtx, ts) ← match ts with
+    | "-" :: r => some (none, r)
+    | h :: r => (strOfHex h).map fun s => (some s, r)
+    | [] => none
+  let (_, ts) ← pTok "M" ts
+  let (n, ts) ← pNat ts
+  let (mem, ts) ← pMany (pRow nf) n ts
+  let (_, ts) ← pTok "S" ts
+  let (nsegs, ts) ← pNat ts
+  let (segs, ts) ← pMany (pSeg nf) nsegs ts
+  let (_, ts) ← pTok "C" ts
+  let (hc, ts) ← pNat ts
+  let (masks, ts) ← pMany pNat nf ts
+  let (_, ts) ← pTok "E" ts
+  let (e, ts) ← pExpr (ts.length + 1) ts
+  let (_, ts) ← pTok "L" ts
+  let (nl, ts) ← pNat ts
+  let (leaves, ts) ← pMany (pLeaf nsegs) nl ts
+  if !ts.isEmpty then none
+  pure ({ sch := sch, mem := mem, segs := segs, hasCat := hc = 1, cat := catOf masks,
+          raw := rawOf leaves, forCtx := forCtx }, e)
+
+def parseM (ts : List String) : Option (Schema × Row × Expr) := do
+  let (nf, ts) ← pNat ts
+  let (sch, ts) ← pMany pKind nf ts
+  let (_, ts) ← pTok "R" ts
+  let (row, ts) ← pRow nf ts
+  let (_, ts) ← pTok "E" ts
+  let (e, ts) ← pExpr (ts.length + 1) ts
+  if !ts.isEmpty then none
+  pure (sch, row, e)
+
+def showR : R → String
+  | .absent => "absent"
+  | .val true => "true"
+  | .val false => "false"
+  | .panic => "panic"
+
+def answer (line : String) : String :=
+  match words line with
+  | "q" :: ts =>
+    match parseQ ts with
+    | some (w, e) => w.answer e
+    | none => "bad-op"
+  | "m" :: ts =>
+    match parseM ts with
+    | some (_, row, e) =>
+      match evalMem e row with
+      | .panic => "panic"
+      | r => if r.accepts then "true" else "false"
+    | none => "bad-op"
+  | _ => "bad-op"
+
+def main : IO Unit := serve answer
